@@ -572,25 +572,26 @@ class World:
         p.v_world = self
         d = self.cur
         p.v_origin = d.src if d is not None else None
-        # one connection of one client = one connection state: a datagram that belongs to a connection the server
-        # already serves (same peer address, same client source connection ID in the long header) must reach THAT state
-        p.v_client_key = None
+        # one connection = one connection state: the connection ID a live state was created through (the destination
+        # connection ID of its first datagram - with Retry the ID the server itself issued in the Retry packet) must keep
+        # leading to that state; a later datagram from the same address to the same ID may not create another one.
+        # (Same client source connection ID is NOT enough: a late copy of an old connection's datagram legitimately
+        # starts a state of its own - thorough-tier false alarm of the first version of this monitor.)
+        p.v_created_by = None
         if d is not None and d.data and d.data[0] & 0x80:
             try:
                 dl = d.data[5]
-                sl = d.data[6 + dl]
-                p.v_client_key = (tuple(d.src[:2]), bytes(d.data[7 + dl: 7 + dl + sl]))
+                p.v_created_by = (tuple(d.src[:2]), bytes(d.data[6: 6 + dl]))
             except IndexError:
                 pass
-        if p.v_client_key is not None:
+        if p.v_created_by is not None:
             for q in self.sprotos:
-                if getattr(q, "v_client_key", None) == p.v_client_key and q.v_terminated is None:
+                if getattr(q, "v_created_by", None) == p.v_created_by and q.v_terminated is None:
                     self.violate(
                         "routing.second_state_for_live_connection",
-                        "the server created a second connection state (%s) for a datagram of a connection it already serves "
-                        "as %s (same peer address %s, same client source connection ID): a connection ID the server "
-                        "issued does not lead to the live connection"
-                        % (p.v_name, q.v_name, self.net.names.get(d.src, d.src)),
+                        "the server created a second connection state (%s) for a datagram from %s addressed to the very "
+                        "connection ID through which the live state %s was created: that ID does not lead to the live "
+                        "connection" % (p.v_name, self.net.names.get(d.src, d.src), q.v_name),
                         api="QuicServer.datagram_received", retry=bool(self.sc["retry"]))
                     break
         self.sprotos.append(p)
